@@ -29,6 +29,7 @@ import (
 	"sync/atomic"
 
 	anystore "github.com/anyproto/any-store"
+	"github.com/anyproto/any-store/anyenc"
 	"google.golang.org/protobuf/proto"
 	"storj.io/drpc"
 
@@ -75,7 +76,7 @@ func storeCfg() *anystore.Config {
 	return &anystore.Config{
 		ReadConnections:                           1,
 		SQLiteConnectionOptions:                   map[string]string{"synchronous": "off"},
-		SQLiteGlobalPageCachePreallocateSizeBytes: -1,
+		SQLiteGlobalPageCachePreallocateSizeBytes: pageCachePrealloc(),
 	}
 }
 
@@ -200,11 +201,46 @@ func (a applySender) SendRequest(ctx context.Context, rq syncdeps.Request, colle
 	return nil
 }
 
+// orderedDelState is the real deletion state with one difference: GetQueued() returns the ids sorted (ascending, or
+// descending when rev is set) instead of in map-iteration order, so that a deletion-worker pass - and above all a pass
+// that is cut short by a crash - is replayable. Both orders are explored.
+type orderedDelState struct {
+	deletionstate.ObjectDeletionState
+	rev bool
+}
+
+func (o *orderedDelState) GetQueued() []string {
+	ids := o.ObjectDeletionState.GetQueued()
+	sort.Strings(ids)
+	if o.rev {
+		for i, j := 0, len(ids)-1; i < j; i, j = i+1, j-1 {
+			ids[i], ids[j] = ids[j], ids[i]
+		}
+	}
+	return ids
+}
+
+// crashSignal is panicked by the tree manager to cut a deletion-worker pass short (the process "dies" there).
+type crashSignal struct{}
+
 // treeManager stands for the client application's tree manager.
 type treeManager struct {
 	d      *device
 	cache  map[string]objecttree.ObjectTree
 	Marked []string
+	// crash injection for the deletion worker: die before / after the crashAt-th DeleteTree / MarkTreeDeleted call
+	calls      int
+	crashAt    int
+	crashAfter bool
+}
+
+func (t *treeManager) boundary(after bool) {
+	if !after {
+		t.calls++
+	}
+	if t.crashAt > 0 && t.calls == t.crashAt && t.crashAfter == after {
+		panic(crashSignal{})
+	}
 }
 
 func (t *treeManager) Init(*app.App) error         { return nil }
@@ -229,17 +265,21 @@ func (t *treeManager) ValidateAndPutTree(context.Context, string, treestorage.Tr
 }
 
 func (t *treeManager) MarkTreeDeleted(ctx context.Context, spaceId, treeId string) error {
+	t.boundary(false)
 	t.Marked = append(t.Marked, treeId)
+	t.boundary(true)
 	return nil
 }
 
 func (t *treeManager) DeleteTree(ctx context.Context, spaceId, treeId string) error {
+	t.boundary(false)
 	tr, err := t.GetTree(ctx, spaceId, treeId)
 	if err != nil {
 		return err
 	}
 	err = tr.Delete()
 	delete(t.cache, treeId)
+	t.boundary(true)
 	return err
 }
 
@@ -300,10 +340,20 @@ func (s *settingsComp) Close(context.Context) error                    { return 
 func (s *settingsComp) DeleteTree(ctx context.Context, id string) error { return s.obj.DeleteObject(ctx, id) }
 func (s *settingsComp) SettingsObject() settings.SettingsObject        { return s.obj }
 
-// headObserver is the synchronous stand-in for diffSyncer.OnUpdate -> headUpdater -> DiffManager.UpdateHeads.
-type headObserver struct{ dm *headsync.DiffManager }
+// headObserver stands for diffSyncer.OnUpdate -> headUpdater (FIFO queue) -> DiffManager.UpdateHeads: head storage calls
+// observers inside its write transaction and UpdateHeads writes the space hash, so the calls have to be deferred; the
+// harness drains the queue in order at the end of every event (the real consumer goroutine drains it as soon as it can).
+type headObserver struct{ d *device }
 
-func (h headObserver) OnUpdate(e headstorage.HeadsEntry) { h.dm.UpdateHeads(e) }
+func (h headObserver) OnUpdate(e headstorage.HeadsEntry) { h.d.pending = append(h.d.pending, e) }
+
+func (d *device) drain() {
+	for len(d.pending) > 0 {
+		e := d.pending[0]
+		d.pending = d.pending[1:]
+		d.diffMgr.UpdateHeads(e)
+	}
+}
 
 // ---- device ---------------------------------------------------------------------------------------------
 
@@ -313,6 +363,7 @@ type device struct {
 	f          *fixture
 	name       string
 	dir        string
+	slot       *dbSlot
 	db         anystore.DB
 	settingsTs int64
 	answers    map[string][][]byte // object id -> response batches a remote peer would stream for a new-tree request
@@ -320,10 +371,12 @@ type device struct {
 	boots      int
 
 	// rebuilt at every boot
+	pending  []headstorage.HeadsEntry
 	app      *app.App
 	space    spacestorage.SpaceStorage
 	acl      list.AclList
-	delState deletionstate.ObjectDeletionState
+	delState deletionstate.ObjectDeletionState // the real one
+	ordState *orderedDelState                  // what the deletion manager sees
 	delMgr   deletionmanager.DeletionManager
 	settings *settingsComp
 	objMgr   objectmanager.ObjectManager
@@ -334,31 +387,134 @@ type device struct {
 	diffMgr  *headsync.DiffManager
 }
 
+// dbSlot is one database file of this process, kept open across replays: opening and closing an any-store database
+// costs more than a whole replay, so a new device first restores the file's CONTENT to the pristine template through the
+// open handle (every document of every collection deleted, the template's documents inserted, one transaction). Only
+// restart events close and reopen the file. The first device of a slot starts from a byte copy of the template file.
+type dbSlot struct {
+	dir string
+	db  anystore.DB
+}
+
+var slots = map[string]*dbSlot{}
+
 func newDevice(f *fixture, name, scratch string, settingsTs int64) (*device, error) {
-	dir, err := os.MkdirTemp(scratch, name+"-")
-	if err != nil {
-		return nil, err
-	}
-	for fname, b := range f.tmpl {
-		if err := os.WriteFile(filepath.Join(dir, fname), b, 0o644); err != nil {
+	slot := slots[name]
+	if slot != nil && slot.db != nil {
+		if err := resetDB(slot.db, f.docs); err != nil {
+			return nil, fmt.Errorf("reset db: %w", err)
+		}
+	} else {
+		dir, err := os.MkdirTemp(scratch, name+"-")
+		if err != nil {
 			return nil, err
 		}
+		for fname, b := range f.tmpl {
+			if err := os.WriteFile(filepath.Join(dir, fname), b, 0o644); err != nil {
+				return nil, err
+			}
+		}
+		slot = &dbSlot{dir: dir}
+		slots[name] = slot
 	}
-	d := &device{f: f, name: name, dir: dir, settingsTs: settingsTs, answers: f.answers}
+	d := &device{f: f, name: name, dir: slot.dir, slot: slot, db: slot.db, settingsTs: settingsTs, answers: f.answers}
+	slot.db = nil // owned by the device until it is closed
 	if err := d.boot(); err != nil {
-		d.close()
+		d.discard()
 		return nil, err
 	}
 	return d, nil
 }
 
+// dumpDocs reads every document of every collection.
+func dumpDocs(db anystore.DB) (map[string][][]byte, error) {
+	names, err := db.GetCollectionNames(ctxBg)
+	if err != nil {
+		return nil, err
+	}
+	out := map[string][][]byte{}
+	for _, n := range names {
+		coll, err := db.OpenCollection(ctxBg, n)
+		if err != nil {
+			return nil, err
+		}
+		it, err := coll.Find(nil).Iter(ctxBg)
+		if err != nil {
+			return nil, err
+		}
+		out[n] = [][]byte{}
+		for it.Next() {
+			doc, err := it.Doc()
+			if err != nil {
+				it.Close()
+				return nil, err
+			}
+			out[n] = append(out[n], doc.Value().MarshalTo(nil))
+		}
+		if err := it.Close(); err != nil {
+			return nil, err
+		}
+	}
+	return out, nil
+}
+
+func resetDB(db anystore.DB, docs map[string][][]byte) (err error) {
+	tx, err := db.WriteTx(ctxBg)
+	if err != nil {
+		return err
+	}
+	defer func() {
+		if err != nil {
+			_ = tx.Rollback()
+		} else {
+			err = tx.Commit()
+		}
+	}()
+	names, err := db.GetCollectionNames(tx.Context())
+	if err != nil {
+		return err
+	}
+	for _, n := range names {
+		coll, err := db.OpenCollection(tx.Context(), n)
+		if err != nil {
+			return err
+		}
+		if _, err = coll.Find(nil).Delete(tx.Context()); err != nil {
+			return err
+		}
+		if _, ok := docs[n]; !ok {
+			return fmt.Errorf("collection %q is not in the template", n)
+		}
+	}
+	p := &anyenc.Parser{}
+	for n, ds := range docs {
+		coll, err := db.Collection(tx.Context(), n)
+		if err != nil {
+			return err
+		}
+		for _, b := range ds {
+			v, err := p.Parse(b)
+			if err != nil {
+				return err
+			}
+			if err = coll.Insert(tx.Context(), v); err != nil {
+				return err
+			}
+		}
+	}
+	return nil
+}
+
 // boot opens the database file and builds every component from it, in the order the space app does.
 func (d *device) boot() (err error) {
-	d.db, err = anystore.Open(ctxBg, filepath.Join(d.dir, "db"), storeCfg())
-	if err != nil {
-		return fmt.Errorf("open db: %w", err)
+	if d.db == nil {
+		d.db, err = anystore.Open(ctxBg, filepath.Join(d.dir, "db"), storeCfg())
+		if err != nil {
+			return fmt.Errorf("open db: %w", err)
+		}
 	}
 	d.boots++
+	d.pending = nil
 	d.space, err = spacestorage.New(ctxBg, d.f.spaceId, d.db)
 	if err != nil {
 		return fmt.Errorf("space storage: %w", err)
@@ -379,6 +535,7 @@ func (d *device) boot() (err error) {
 	}
 	d.tm = &treeManager{d: d, cache: map[string]objecttree.ObjectTree{}}
 	d.delState = deletionstate.New()
+	d.ordState = &orderedDelState{ObjectDeletionState: d.delState}
 	d.delMgr = deletionmanager.New()
 	d.settings = &settingsComp{d: d}
 	d.objMgr = objectmanager.New(d.tm)
@@ -398,7 +555,7 @@ func (d *device) boot() (err error) {
 		&fakeSyncService{comp{csync.CName}, d},
 		&fakeSyncAcl{AclList: d.acl},
 		fakeKV{comp: comp{kvinterfaces.CName}},
-		d.delState,
+		d.ordState,
 		d.delMgr,
 		d.settings,
 		d.objMgr,
@@ -428,10 +585,11 @@ func (d *device) bootFinish() (err error) {
 	if err = d.settings.Run(ctxBg); err != nil {
 		return fmt.Errorf("settings run: %w", err)
 	}
-	d.space.HeadStorage().AddObserver(headObserver{d.diffMgr})
+	d.space.HeadStorage().AddObserver(headObserver{d})
 	if err = d.diffMgr.FillDiff(ctxBg); err != nil {
 		return fmt.Errorf("fill diff: %w", err)
 	}
+	d.drain()
 	return nil
 }
 
@@ -444,21 +602,65 @@ func (d *device) restart(earlyWorker bool) error {
 		return err
 	}
 	if earlyWorker {
-		d.worker()
+		d.worker(false)
 	}
 	return d.bootFinish()
 }
 
+// close hands the (open) database back to the slot for the next device.
 func (d *device) close() {
-	if d.db != nil {
-		_ = d.db.Close()
-		d.db = nil
+	if d.db == nil {
+		d.discard()
+		return
 	}
-	_ = os.RemoveAll(d.dir)
+	d.slot.db, d.db = d.db, nil
 }
 
-func (d *device) worker() {
+// discard is close for a device whose database handle cannot be trusted any more (panic inside a transaction, failed
+// restart): the handle is abandoned and the slot starts over from a fresh file.
+func (d *device) discard() {
+	if d.db != nil {
+		db := d.db
+		d.db = nil
+		go func() { _ = db.Close() }()
+	}
+	if slots[d.name] == d.slot {
+		delete(slots, d.name)
+	}
+}
+
+// worker is one pass of the deletion manager's delete loop (deleter.Delete), over the queue in ascending or descending
+// id order.
+func (d *device) worker(rev bool) {
+	d.ordState.rev = rev
+	d.tm.calls, d.tm.crashAt = 0, 0
 	deletionmanager.VerifDeleter(d.delMgr).Delete(ctxBg)
+	d.drain()
+}
+
+// workerCrash is a pass during which the process dies right before (after=false) or right after (after=true) the k-th
+// call into the tree manager - i.e. around the deletion of a tree's storage, before the deleter records the id as
+// deleted - followed by a restart. Head updates still queued for the index die with the process.
+func (d *device) workerCrash(k int, after bool) (crashed bool, err error) {
+	d.ordState.rev = false
+	d.tm.calls, d.tm.crashAt, d.tm.crashAfter = 0, k, after
+	func() {
+		defer func() {
+			if r := recover(); r != nil {
+				if _, ok := r.(crashSignal); !ok {
+					panic(r)
+				}
+				crashed = true
+			}
+		}()
+		deletionmanager.VerifDeleter(d.delMgr).Delete(ctxBg)
+	}()
+	d.tm.crashAt = 0
+	if !crashed {
+		d.drain()
+	}
+	d.pending = nil
+	return crashed, d.restart(false)
 }
 
 func (d *device) settingsObj() settings.SettingsObject { return d.settings.obj }
@@ -521,4 +723,11 @@ func sortedKeys(m map[string]struct{}) []string {
 	}
 	sort.Strings(out)
 	return out
+}
+
+func pageCachePrealloc() int {
+	if os.Getenv("C15_NOPREALLOC") != "" {
+		return -1
+	}
+	return 16 << 20
 }
